@@ -27,6 +27,7 @@ ASSUMPTIONS = common.BASE_ASSUMPTIONS + [
 ]
 REAL_VS_STUB = common.REAL_VS_STUB
 QUICK_RUNS = 18000
+LONG_RUN_EVERY = 157  # one wire in 157 starts with >= 1100 tiny frames of one or two kinds
 O_SLICE_UNITS = 120
 EXPECTED_PROBES = {t: ["nested_wires", "filtered_frame_contains_foreign_preamble", "all_accepted_wires", "corrupted_wires", "socket_runs"] for t in ("quick", "thorough")}
 
@@ -46,6 +47,14 @@ def generate(seed: int, tier: str = "quick") -> dict:
         frames = common.add_noise(r_lnk, frames, pre)
     else:
         frames = common.gen_mixed_frames(r_dev, r_lnk, n, cfg, pre, style=style)
+    if seed % LONG_RUN_EVERY == LONG_RUN_EVERY - 1:
+        run, _style = common.long_run_frames(r_dev, pre)
+        frames = [dict(f, kind="garbage") if f["kind"] == "noise" else f for f in run] + frames[:3]
+    if r_cfg.random() < 0.3:
+        cfg["decoy"] = True
+        cfg["decoy_protfilter"] = r_cfg.choice((0, 1, 2, 4, 3, 5, 6, 7))
+        cfg["decoy_policy"] = r_cfg.choice((0, 1, 2))
+        cfg["decoy_parsing"] = r_cfg.choice((True, False))
     spans = sched.spans_of(frames)
     wire_len = spans[-1][1] if spans else 0
     tr = common.draw_transport(r_sch, wire_len, spans, kinds=("file", "file", "socket"))
